@@ -157,6 +157,9 @@ def check(ctx):
     oks = [o for o in outs if o["kind"] == "ok"]
     good = False
     det = {}
+    # (an early `return Ok(..)` for the empty-bstr shortcut makes two Ok exits: the one that parses is the one judged here)
+    if len(oks) > 1:
+        oks = [o for o in oks if o["inner"][0] == "aggr" and any(True for _ in calls_in(dict(o["inner"][3]).get("header") or ("const", 0), READ))] or oks
     if len(oks) == 1 and oks[0]["inner"][0] == "aggr":
         fields = dict(oks[0]["inner"][3])
         od = fields.get("original_data")
